@@ -278,6 +278,8 @@ def run_class(ctx, key):
                 longer = None
                 if kind_.startswith('list_obj:'):
                     k2 = kind_[len('list_obj:'):]
+                    if S.unconstrained.get(k2):
+                        continue        # a class that accepts anything: random instances of it are not protocol values
                     made = [S.make(k2, rng) for _ in range(rng.randrange(2, 5))]
                     made = [m_ for m_ in made if m_ is not None]
                     if len(made) >= 2:
